@@ -273,6 +273,28 @@ def _binop(op, a, b):
     raise Unknown("operands do not broadcast")
 
 
+def _conj(v):
+    """complex conjugation on symbols: x <-> x~ (i -> -i); constants are rational"""
+    def one(lp: LP) -> LP:
+        out: dict = {}
+        for k, c in lp.t.items():
+            sign = 1
+            k2 = []
+            for s_, e_ in k:
+                if s_ == "i":
+                    if e_.denominator == 1 and int(e_) % 2:
+                        sign = -sign
+                    k2.append((s_, e_))
+                else:
+                    k2.append((s_[:-1] if s_.endswith("~") else s_ + "~", e_))
+            k2 = tuple(sorted(k2))
+            out[k2] = out.get(k2, 0) + c * sign
+        return LP(out)
+    if isinstance(v, LP):
+        return one(v)
+    return Table(v.shape, {k: one(x) for k, x in v.data.items()})
+
+
 _DIVISORS: list = []  # the sums that were divided by since the list was last cleared (E19.act asks where they vanish)
 
 
@@ -582,6 +604,7 @@ class Interp:
         self.assume = assume  # textual test -> outcome, for tests the domain cannot decide (np.isinf(h) ...)
         self.undecided_tests: list[str] = []
         self.owner = None  # ClassInfo of the method whose body is interpreted (run_method)
+        self.complex_mode = False  # the symbols stand for complex numbers: conj / adjoint act on them (x -> x~), otherwise conj is not in the vocabulary
         self.uncertain_flow: str | None = None  # the test of an undecided `if` one of whose arms returns or raises
         self.infinite: set[str] = set()  # symbols assumed infinite on this path
         self.roots: RootsOf | None = None
@@ -950,6 +973,10 @@ class Interp:
                     return self.run_method(own.methods[name], recv, [self.ev(a_, env) for a_ in e.args], {k_.arg: self.ev(k_.value, env) for k_ in e.keywords if k_.arg})
         if name == "cast" and len(e.args) == 2 and not e.keywords:
             return self.ev(e.args[1], env)  # typing.cast returns its second argument
+        if self.complex_mode and name in ("conj", "conjugate") and (is_np and len(e.args) == 1 or (isinstance(f, ast.Attribute) and not is_np and not e.args)):
+            v_ = self.ev(e.args[0] if e.args else f.value, env)
+            if isinstance(v_, (LP, Table)):
+                return _conj(v_)
         if name not in self.hooks and name:
             # a private helper made public or the reverse (`_divide_by_power_of_two` / `divide_by_power_of_two`) is the same helper
             name = next((n_ for n_ in ("_" + name, name.lstrip("_")) if n_ in self.hooks and n_ != ""), name)
@@ -965,6 +992,8 @@ class Interp:
                     else:
                         args_.append(self.ev(a_, env))
                 except (Unknown, NotPolynomial) as ex:
+                    if isinstance(ex, RaisedIn):
+                        raise
                     args_.append(Opaque(str(ex)))
             kw_ = {}
             for k_ in e.keywords:
@@ -972,6 +1001,8 @@ class Interp:
                     try:
                         kw_[k_.arg] = self.ev(k_.value, env)
                     except (Unknown, NotPolynomial) as ex:
+                        if isinstance(ex, RaisedIn):
+                            raise
                         kw_[k_.arg] = Opaque(str(ex))
             return self.hooks[name](args_, kw_)
         if name in ("cos", "sin") and len(e.args) == 1 and self.trig:
@@ -1216,6 +1247,14 @@ class Interp:
                     def tr(t_):
                         return Table((t_.shape[1], t_.shape[0]), {(j, i): x for (i, j), x in t_.data.items()}) if len(t_.shape) == 2 else t_
                     return _dot(tr(a_) if flags.get("transpose_a") else a_, tr(b_) if flags.get("transpose_b") else b_)
+                if (self.complex_mode and isinstance(a_, Table) and isinstance(b_, Table) and set(flags) <= {"transpose_a", "transpose_b", "adjoint_a", "adjoint_b"}
+                        and all(isinstance(x, bool) for x in flags.values())):
+                    # the adjoint is the conjugate of the transpose: conjugation is kept as an operation on the symbols
+                    def tr2(t_):
+                        return Table((t_.shape[1], t_.shape[0]), {(j, i): x for (i, j), x in t_.data.items()}) if len(t_.shape) == 2 else t_
+                    a2 = _conj(tr2(a_)) if flags.get("adjoint_a") else tr2(a_) if flags.get("transpose_a") else a_
+                    b2 = _conj(tr2(b_)) if flags.get("adjoint_b") else tr2(b_) if flags.get("transpose_b") else b_
+                    return _dot(a2, b2)
             if name == "swapaxes" and len(e.args) == 3:
                 v = self.num(self.ev(e.args[0], env))
                 ax = sorted(self.ev(x, env) for x in e.args[1:])
@@ -1396,6 +1435,9 @@ class Interp:
         try:
             a_np = [conv(v) for v in args]
             kw_np = {k_: conv(v) for k_, v in kw.items()}
+            # a tuple written as a tuple stays one (numpy tells an axis tuple from an index list)
+            a_np = [tuple(v) if isinstance(node, ast.Tuple) and isinstance(v, list) else v for v, node in zip(a_np, e.args)]
+            kw_np = {k_.arg: (tuple(kw_np[k_.arg]) if isinstance(k_.value, ast.Tuple) and isinstance(kw_np[k_.arg], list) else kw_np[k_.arg]) for k_ in e.keywords if k_.arg}
             if name == "indices":
                 res = np_.indices(*a_np, **kw_np)
                 if res.size == 0:
@@ -1427,6 +1469,7 @@ class Interp:
         sub.infinite, sub.quadric_ctors = self.infinite, self.quadric_ctors
         sub.trig, sub.rules, sub.hooks, sub.heights, sub.ratio_mode, sub.generic = self.trig, self.rules, self.hooks, self.heights, self.ratio_mode, self.generic
         sub.module_constants, sub._const_cache = self.module_constants, self._const_cache
+        sub.complex_mode = self.complex_mode
         try:
             sub.block(m.node.body, env2)
         except _Done as d:
@@ -1526,6 +1569,7 @@ class Interp:
         sub.infinite, sub.quadric_ctors = self.infinite, self.quadric_ctors
         sub.trig, sub.rules, sub.hooks, sub.heights, sub.generic = self.trig, self.rules, self.hooks, self.heights, self.generic
         sub.module_constants, sub._const_cache = self.module_constants, self._const_cache
+        sub.complex_mode = self.complex_mode
         try:
             sub.block(helper.node.body, env2)
         except _Done as d:
@@ -1718,6 +1762,8 @@ class Interp:
                 return
         # loops, with, try, del ...: whatever they may write is no longer known
         self.forget_written(st, env, "written in a statement outside the vocabulary")
+        if any(isinstance(x, (ast.Return, ast.Raise)) for x in ast.walk(st)):
+            self.uncertain_flow = f"{type(st).__name__.lower()} statement at line {st.lineno}"
 
     def assign(self, t: ast.expr, v, env: dict) -> None:
         if isinstance(t, ast.Name):
@@ -2700,7 +2746,7 @@ class SymDiagram(SymObject):
                     nodes.append(x)
             fs, ft = unused[id(a)][0], unused[id(b)][1]
             if not fs or not ft:
-                raise Unknown("an edge without an index left")
+                raise RaisedIn("TensorIndexError")  # add_edge raises it when a node has no free index of the needed type (C05, E7)
             i, j = fs.pop(0), ft.pop(0)
             if a.array.shape[i] != b.array.shape[j]:
                 raise Unknown("dimension mismatch")
@@ -3414,4 +3460,181 @@ def rule_action_values(run: Run, prog: Program, part: str = "incidence") -> int:
                 n_ob += 1
                 judge(label, c_compose(point), "both sides are multiples of each other, and the composition divides by nothing that can vanish for invertible matrices",
                       "(s * t) * x is not a multiple of s * (t * x): the composition is not compatible with the action", n)
+    return n_ob
+
+
+# ---------------------------------------------------------------------------------------------- tangent, polar, dual of a quadric, as values (C14)
+class Tested(SymObject):
+    """the value a predicate compares with zero (np.isclose(value, 0, atol=...)): the predicate holds exactly where the polynomial vanishes"""
+
+    def __init__(self, value):
+        self.value = value
+
+
+def rule_quadric_duality(run: Run, prog: Program) -> int:
+    run.rule("E19.polar", "QuadricTensor.tangent, contains, dual and is_tangent interpreted on a symbolic symmetric matrix Q and symbolic points (complex symbols: "
+                          "conjugation is an operation on them): the tangent at p is incident with p exactly where p lies on Q; the polar of p contains q exactly "
+                          "when the polar of q contains p; the value is_tangent tests for the hyperplane Q p is det Q (p^T Q p) up to a constant, so the tangent "
+                          "at a point of the quadric is tangent; dual(dual(Q)) is a non-zero multiple of Q with the dual flag restored")
+    quad = prog.find_cls("QuadricTensor")
+    if quad is None:
+        run.add("E19.polar", "QuadricTensor", "anchors", UNDECIDED, "QuadricTensor not found", "")
+        return 0
+    meth = {nm: prog.lookup(quad, nm) for nm in ("tangent", "contains", "dual", "is_tangent")}
+    if any(v is None for v in meth.values()):
+        run.add("E19.polar", "QuadricTensor", "anchors", UNDECIDED, f"not found: {[k for k, v in meth.items() if v is None]}", "")
+        return 0
+    family = {c.name for c in prog.classes.values() if any(b is quad for b in prog.mro(c))}
+
+    class ConicSym(TensorSym):
+        def __init__(self, table: Table, is_dual: bool = False):
+            super().__init__(table, 2 if is_dual else 0, 0 if is_dual else 2, {"Tensor", "ProjectiveTensor", "QuadricTensor"})
+            self.is_dual = is_dual
+
+        def copy(self):
+            return ConicSym(self.array, self.is_dual)
+
+        def rebuild(self, args_, kw_):
+            return build(args_, kw_)
+
+        @property
+        def dual(self):
+            return run_m("dual", self, [])
+
+    def build(args_, kw_):
+        a0 = args_[0].array if args_ and isinstance(args_[0], TensorSym) else args_[0] if args_ else None
+        flag = kw_.get("is_dual", args_[1] if len(args_) > 1 else False)
+        if isinstance(a0, Table) and len(a0.shape) == 2 and isinstance(flag, bool):
+            return ConicSym(a0, flag)
+        return Opaque("quadric constructor")
+
+    def vecsym(args_, kw_, point: bool):
+        a0 = args_[-1] if args_ else None
+        if isinstance(a0, Table) and len(a0.shape) == 1:
+            return TensorSym(a0, 1 if point else 0, 0 if point else 1, {"PointTensor", "Point", "Tensor"} if point else {"SubspaceTensor", "PlaneTensor", "LineTensor", "Tensor"})
+        return Opaque("from_array")
+
+    def matvec_hook(a_, k_):
+        if len(a_) == 2 and isinstance(a_[0], Table) and isinstance(a_[1], Table) and len(a_[0].shape) == 2 and set(k_) <= {"transpose_a", "adjoint_a"} \
+                and all(isinstance(x, bool) for x in k_.values()):
+            m_ = a_[0]
+            if k_.get("transpose_a") or k_.get("adjoint_a"):
+                m_ = Table((m_.shape[1], m_.shape[0]), {(j, i): x for (i, j), x in m_.data.items()})
+            if k_.get("adjoint_a"):
+                m_ = _conj(m_)
+            return _dot(m_, a_[1])
+        return Opaque("matvec")
+
+    def make_interp() -> "Interp":
+        it = Interp(prog, None, {})
+        it.generic = True
+        it.complex_mode = True
+        hooks = {"LeviCivitaTensor": lambda a_, k_: levi_civita(a_[0], a_[1] if len(a_) > 1 else k_.get("covariant", True))
+                 if a_ and isinstance(a_[0], int) and isinstance(a_[1] if len(a_) > 1 else k_.get("covariant", True), bool) else Opaque("eps"),
+                 "TensorDiagram": lambda a_, k_: SymDiagram([tuple(x) for x in a_]) if all(isinstance(x, (list, tuple)) and len(x) == 2 for x in a_) else Opaque("diagram"),
+                 "matvec": matvec_hook,
+                 "inv": lambda a_, k_: _adjugate_table(a_[0]) if a_ and isinstance(a_[0], Table) else Opaque("inv"),
+                 "solve": lambda a_, k_: _dot(_adjugate_table(a_[0]), a_[1]) if len(a_) == 2 and isinstance(a_[0], Table) and isinstance(a_[1], Table) and len(a_[0].shape) == 2 else Opaque("solve"),
+                 "isclose": lambda a_, k_: Tested(a_[0]) if len(a_) >= 2 and isinstance(a_[0], (LP, Table)) and (a_[1] == 0 or (isinstance(a_[1], LP) and a_[1].is_zero())) else Opaque("isclose"),
+                 "from_array": lambda a_, k_: vecsym(a_, k_, False), "from_tensor": lambda a_, k_: a_[-1],
+                 "cls": build}
+        for nm in family:
+            hooks[nm] = build
+        it.hooks = hooks
+        return it
+
+    def run_m(name: str, recv, args: list):
+        it = make_interp()
+        m_ = meth[name]
+        try:
+            if m_.is_property:
+                return it.run_method(m_, recv, [], {})
+            return it.run_method(m_, recv, args, {})
+        except _Raise as r:
+            raise RaisedIn(r.name) from None
+
+    def value_of(x) -> LP:
+        if isinstance(x, Tested):
+            v = x.value
+            if isinstance(v, Table):
+                if len(v.data) != 1:
+                    raise Unknown("the tested value is not a single number")
+                v = next(iter(v.data.values()))
+            return v
+        raise Unknown(f"the predicate does not test a value against zero ({getattr(x, 'why', type(x).__name__)[:60]})")
+
+    def multiple_of(v: LP, ref: LP) -> bool:
+        """v = c ref with a non-zero rational c"""
+        if ref.is_zero() or v.is_zero():
+            return False
+        k0 = next(iter(ref.t))
+        c = v.t.get(k0, 0) / ref.t[k0]
+        return bool(c) and (v - ref * LP.const(c)).is_zero()
+
+    n_ob = 0
+    loc = meth["tangent"].loc
+    for n in (3, 4):
+        space = "the plane" if n == 3 else "3-space"
+        q = Table.full((n, n), lambda idx: LP.sym(f"q{min(idx)}{max(idx)}"))
+        conic = ConicSym(q)
+        p_ = TensorSym(Table((n,), {(i,): LP.sym(f"p{i}") for i in range(n)}), 1, 0, {"PointTensor", "Point", "Tensor"})
+        r_ = TensorSym(Table((n,), {(i,): LP.sym(f"r{i}") for i in range(n)}), 1, 0, {"PointTensor", "Point", "Tensor"})
+        form = sum((p_.array.data[(i,)] * q.data[(i, j)] * p_.array.data[(j,)] for i in range(n) for j in range(n)), LP())
+        det_q = _det_table(q)
+
+        def dot(a: TensorSym, b: TensorSym) -> LP:
+            return sum((a.array.data[(i,)] * b.array.data[(i,)] for i in range(n)), LP())
+
+        def ob(label: str, fn_) -> None:
+            nonlocal n_ob
+            n_ob += 1
+            try:
+                ok, good, bad = fn_()
+                run.add("E19.polar", "QuadricTensor", f"{label} ({space})", PROVEN if ok else VIOLATION, good if ok else bad, loc)
+            except RaisedIn as r:
+                run.add("E19.polar", "QuadricTensor", f"{label} ({space})", VIOLATION, f"raises {r.name} for a quadric and a point in general position", loc)
+            except (Unknown, NotPolynomial, RecursionError, KeyError, IndexError, TypeError, AttributeError) as ex:
+                run.add("E19.polar", "QuadricTensor", f"{label} ({space})", UNDECIDED, f"not read: {type(ex).__name__}: {str(ex)[:100]}", loc)
+
+        def tangent_of(x):
+            t = run_m("tangent", conic, [x])
+            if not isinstance(t, TensorSym) or not isinstance(t.array, Table) or t.array.shape != (n,):
+                raise Unknown(f"tangent does not return a hyperplane ({getattr(t, 'why', type(t).__name__)[:50]})")
+            return t
+
+        def c1():
+            t = tangent_of(p_)
+            v = value_of(run_m("contains", conic, [p_]))
+            return (multiple_of(dot(t, p_), form) and multiple_of(v, form),
+                    "tangent(p).p and the value contains(p) tests are both p^T Q p up to a constant: the tangent at p passes through p exactly when p lies on the quadric",
+                    "tangent(p).p or the value tested by contains(p) is not a multiple of p^T Q p")
+        ob("the tangent at a point is incident with the point", c1)
+
+        def c2():
+            return ((dot(tangent_of(p_), r_) - dot(tangent_of(r_), p_)).is_zero(), "polar(p).r = polar(r).p identically", "polar(p).r differs from polar(r).p: pole and polar are not reciprocal")
+        ob("pole and polar are reciprocal", c2)
+
+        def c3():
+            h = tangent_of(p_)
+            h.kinds = {"SubspaceTensor", "PlaneTensor", "LineTensor", "Tensor"}
+            v = value_of(run_m("is_tangent", conic, [h]))
+            return (multiple_of(v, det_q * form), "the value is_tangent tests for the hyperplane Q p is det Q (p^T Q p) up to a constant: it vanishes where p lies on the quadric",
+                    "the value is_tangent tests for the hyperplane Q p is not a multiple of det Q (p^T Q p): the tangent at a point of the quadric is not recognised as tangent "
+                    "(or hyperplanes that are not tangent are)")
+        ob("the tangent at a point of the quadric is tangent", c3)
+
+        def c4():
+            d1 = run_m("dual", conic, [])
+            if not isinstance(d1, ConicSym):
+                raise Unknown(f"dual does not return a quadric ({getattr(d1, 'why', type(d1).__name__)[:50]})")
+            d2 = d1.dual
+            if not isinstance(d2, ConicSym):
+                raise Unknown("dual of the dual is not a quadric")
+            keys = sorted(q.data)
+            prop = not all(d2.array.data[k].is_zero() for k in keys) and all(
+                (d2.array.data[k1] * q.data[k2] - d2.array.data[k2] * q.data[k1]).is_zero() for i_, k1 in enumerate(keys) for k2 in keys[i_ + 1:])
+            return (prop and d1.is_dual is True and d2.is_dual is False, "dual(dual(Q)) is a non-zero polynomial multiple of Q, the dual flag is set and restored",
+                    "dual(dual(Q)) is not a multiple of Q, or the dual flag is not flipped each time")
+        if n == 3:
+            ob("dual is an involution", c4)
     return n_ob
